@@ -1932,3 +1932,36 @@ Definition ex_attempt_msgs : list msg :=
   [RequestOperation 3 ReceiveConfig; SendData 0 (st_to_bytes Max3000Side90x7); DataChunksSent 1;
    QueryState 3].
 
+
+(* ------------------------------------------------------------------------- *)
+(** * Several calls on one Sign: what a call leaves of the script *)
+
+(* Unless it is left waiting, a call reads exactly as many replies as it sends messages, from the front of the
+   script: the next call starts at [skipn (length tr) script] -- which is how [run_cops_script] chains them. *)
+Lemma run_script_leaves {A} (p : prog A) script tr o :
+  run_script p script = (tr, o) -> o <> Blocked ->
+  run_script_rest p script = (tr, o, skipn (length tr) script)
+  /\ (length tr <= length script)%nat.
+Proof.
+  intros H Hb. destruct (run_script_rest_ex _ _ _ _ H) as [rest Hr].
+  destruct (run_script_rest_consumed _ _ _ _ _ Hr) as [Hc _]. destruct (Hc Hb) as [Hs Hl].
+  split; [|lia]. rewrite Hr. f_equal.
+  apply (app_inv_head (firstn (length tr) script)).
+  rewrite <- Hs. symmetry. apply firstn_skipn.
+Qed.
+
+(* Two calls in a row are the two programs run one after the other on the same script. *)
+Lemma run_cops_two c1 c2 script tr1 v1 :
+  run_script (cop_prog c1) script = (tr1, Done v1) ->
+  run_cops_script [c1; c2] script
+  = [(tr1, Done v1); run_script (cop_prog c2) (skipn (length tr1) script)]
+  /\ run_script (cop_prog c1 ;;; cop_prog c2) script
+     = (let '(tr2, o2) := run_script (cop_prog c2) (skipn (length tr1) script) in (tr1 ++ tr2, o2)).
+Proof.
+  intros H. split.
+  - cbn [run_cops_script]. rewrite H.
+    destruct (run_script (cop_prog c2) (skipn (length tr1) script)) as [tr2 o2].
+    destruct o2; reflexivity.
+  - rewrite run_script_bind.
+    destruct (run_script_leaves _ _ _ _ H) as [Hr _]; [discriminate|]. rewrite Hr. reflexivity.
+Qed.
